@@ -241,12 +241,22 @@ def mode_rules(prog, chk, pid):
     bc = builtin_call(unsnap(rh.ret)) if rh.ret is not None else None
     chk.require(bool(bc) and bc[0] == "bytes" and len(bc[1]) == 1 and unsnap(bc[1][0]).op == "param", P("bytes-helper"), fh.qualname, "return bytes(binary)", "%s:%d" % (fh.file, fh.lineno), "helper converts the list of byte values to bytes unchanged", "_bytes_to_string is not bytes(binary)")
 
+    cur = {}
+
     def strip(t):
         t = unsnap(t)
         while True:
             if t.op == "call" and isinstance(t.args[0], Term) and t.args[0].op == "func" and t.args[0].args[0].rsplit(".", 1)[-1] in ("_string_to_bytes", "_bytes_to_string") and len(t.args[1]) == 1:
                 t = unsnap(t.args[1][0])
                 continue
+            if t.op == "ref" and cur.get("ex") is not None:
+                # list(<generator / map>) that was not changed since: the items are those of the iterable
+                heap = (cur["res"].state.heap if cur["res"].state is not None else None) or getattr(cur["ex"], "last_heap", {}) or {}
+                o_ = heap.get(t.args[0])
+                if o_ is not None and o_.kind == "list" and not o_.exact and isinstance(getattr(o_, "base", None), Term) and o_.items and o_.items[0][2] == "from" and all(i_[2] == "callee" for i_ in o_.items[1:]):
+                    # (entries marked 'callee' only say that the list was later handed to a helper that is not interpreted in line: the byte helpers checked above)
+                    t = unsnap(o_.base)
+                    continue
             bc2 = builtin_call(t)
             if bc2 and bc2[0] == "bytes" and len(bc2[1]) == 1:
                 t = unsnap(bc2[1][0])
@@ -262,14 +272,21 @@ def mode_rules(prog, chk, pid):
         t = strip(t)
         if t.op != "comp":
             return False
-        elt, it = unsnap(t.args[1]), unsnap(t.args[2])
-        if not (elt.op == "bin" and elt.args[0] == "BitXor" and it.op == "iterview" and it.args[0] == "zip"):
-            return False
-        srcs = [strip(x) for x in it.args[1].args[0]]
-        if len(srcs) != 2:
+        elt, it = unsnap(t.args[1]), (unsnap(t.args[2]) if isinstance(t.args[2], Term) else None)
+        if not (elt.op == "bin" and elt.args[0] == "BitXor"):
             return False
         ops = {unsnap(elt.args[1]).uid, unsnap(elt.args[2]).uid}
         if len(ops) != 2 or not all(unsnap(o).op == "elem" for o in (elt.args[1], elt.args[2])):
+            return False
+        if it is not None and it.op == "iterview" and it.args[0] == "zip":
+            srcs = [strip(x) for x in it.args[1].args[0]]
+        else:
+            # list(map(xor, A, B)) / a comprehension over indexes: the two operands are items of A and of B taken in the same step
+            e1, e2 = unsnap(elt.args[1]), unsnap(elt.args[2])
+            if len(e1.args) < 2 or len(e2.args) < 2 or e1.args[1] != e2.args[1]:
+                return False
+            srcs = [strip(e1.args[0]), strip(e2.args[0])]
+        if len(srcs) != 2:
             return False
         return (pred_a(srcs[0]) and pred_b(srcs[1])) or (pred_a(srcs[1]) and pred_b(srcs[0]))
 
@@ -280,6 +297,7 @@ def mode_rules(prog, chk, pid):
         where = "%s:%d" % (fi.file, fi.lineno)
         ex = Exec(prog, policy=pol_c)
         res = ex.run(fi)
+        cur["ex"], cur["res"] = ex, res
         calls = [e for e in res.events if e.kind == "mcall" and e.d["name"] == meth and unsnap(e.d["recv"]).op == "attr" and unsnap(e.d["recv"]).args[1] == "_aes"]
         sets = [e for e in res.events if e.kind == "setattr" and e.d["name"] == "_last_cipherblock"]
         ok, why = len(calls) == 1 and len(sets) == 1 and not res.dead, "expected exactly one self._aes.%s call and one update of the chaining value" % meth
